@@ -121,8 +121,8 @@ def explore(ob_fn, shard=0, nshards=1, budget_s=120.0, per_path_timeout=20.0,
                                search_root=root)
             patches.reset_path_state()
             breakout = False
-            with condition_parser([AnalysisKind.PEP316]), Patched(), COMPOSITE_TRACER, \
-                    NoTracing(), StateSpaceContext(space):
+            with condition_parser([AnalysisKind.PEP316]), Patched(), patches.VerifPatches(), \
+                    COMPOSITE_TRACER, NoTracing(), StateSpaceContext(space):
                 v = SymVars(space, shard=shard, nshards=nshards,
                             open_findings=open_findings, tier=tier)
                 status = None
